@@ -5,9 +5,6 @@
 //     like `dis`, for any CPU: loads the bytes at <addr> (CPU's endianness), calls the single-instruction
 //     disassembler that belongs to cpu_list[cpu].disasm_range with a 128-byte heap buffer
 //     -> <len> <hex of text> | nonul <len>
-// walkx <cpu> <start hex> <end hex> <hex bytes>
-//     runs the real disasm_range of the CPU with stdout captured -> the address column (hex, comma separated,
-//     as printed: address units of the CPU), in print order; lines that are not "0x..: " lines are ignored
 #ifndef NV_CMD_ISA_ALL_H
 #define NV_CMD_ISA_ALL_H
 
@@ -69,6 +66,9 @@
 #include "disasm/xtensa.h"
 #include "disasm/z80.h"
 
+// defined in disasm/msp430.cpp, not declared in its header
+int disasm_msp430x(Memory *memory, uint32_t address, char *instruction, int length, int flags, int *cycles_min, int *cycles_max);
+
 struct IsaAllCpu { disasm_range_t range; disasm_one_t one; };
 static IsaAllCpu isa_all[] =
 {
@@ -103,7 +103,7 @@ static IsaAllCpu isa_all[] =
   { disasm_range_m8c, disasm_m8c },
   { disasm_range_mips, disasm_mips },
   { disasm_range_msp430, disasm_msp430 },
-  { disasm_range_msp430x, disasm_msp430 },
+  { disasm_range_msp430x, disasm_msp430x },
   { disasm_range_pdk13, disasm_pdk13 },
   { disasm_range_pdk14, disasm_pdk14 },
   { disasm_range_pdk15, disasm_pdk15 },
@@ -182,15 +182,16 @@ static std::string cmd_disx(const std::vector<std::string> &args)
 }
 
 
-// disxb <cpu> <addr hex> <tail hex> <from> <to>
-//     batch form for the sweeps: for every 16-bit prefix p in [from, to) the bytes (p >> 8, p & 0xff, tail...) are
-//     placed at <addr> and disassembled; then every byte after the reported length is complemented and the
-//     instruction is disassembled again (locality).  Answer:
+// disxb <cpu> <addr hex> <tail hex> <from> <to> [<off>]
+//     batch form for the sweeps: for every 16-bit pattern p in [from, to) the bytes
+//     (tail[0..off), p >> 8, p & 0xff, tail[off..]) are placed at <addr> (off = 0 when absent: p leads; off = 2
+//     puts p into the upper half-word of a little-endian 32-bit instruction) and disassembled; then every byte
+//     after the reported length is complemented and the instruction is disassembled again (locality).  Answer:
 //       n=<count> max=<largest length> bad=<p:kind:len;...>   kinds: nonul, short (len < unit), nonlocal
 //     plus lens=<histogram len:count,...>.  `unit` = bytes_per_address of the CPU (1 if 0).
 static std::string cmd_disxb(const std::vector<std::string> &args)
 {
-  if (args.size() != 5) { return "bad-op"; }
+  if (args.size() != 5 && args.size() != 6) { return "bad-op"; }
   CpuList *cpu = isa_find_cpu(args[0]);
   if (cpu == NULL) { return "bad-op"; }
   disasm_one_t f = isa_all_find(cpu);
@@ -198,6 +199,8 @@ static std::string cmd_disxb(const std::vector<std::string> &args)
   uint32_t addr = (uint32_t)strtoul(args[1].c_str(), NULL, 16);
   std::string tail = unhex(args[2]);
   int from = atoi(args[3].c_str()), to = atoi(args[4].c_str());
+  size_t off = args.size() == 6 ? (size_t)atoi(args[5].c_str()) : 0;
+  if (off > tail.size()) { return "bad-op"; }
   int unit = cpu->bytes_per_address > 0 ? cpu->bytes_per_address : 1;
   const int size = 128;
   const int total = 2 + (int)tail.size();
@@ -211,10 +214,10 @@ static std::string cmd_disxb(const std::vector<std::string> &args)
   signal(SIGALRM, isa_alarm);
   for (int p = from; p < to; p++)
   {
-    std::string bytes;
+    std::string bytes = tail.substr(0, off);
     bytes += (char)(p >> 8);
     bytes += (char)(p & 0xff);
-    bytes += tail;
+    bytes += tail.substr(off);
     for (int i = 0; i < total; i++) { memory->write8(addr + i, (uint8_t)bytes[i]); }
     memset(text1, 0x55, size);
     int c0 = 0, c1 = 0;
@@ -266,6 +269,45 @@ static std::string cmd_disxb(const std::vector<std::string> &args)
 }
 
 
+// walkx <cpu> <start hex> <end hex> <hex bytes>
+//     like `walk` (real disasm_range of cpu_list with stdout captured), but format-agnostic: for every printed line
+//     that has a ':' within its first 24 characters the text before that ':' is returned (hex encoded, comma
+//     separated, print order); the caller knows the address format of the CPU (0x%04x, octal 0%04o, tms1000's
+//     linear|pc page/lsfr, ...).  "-" if there is no such line.
+static std::string cmd_walkx(const std::vector<std::string> &args)
+{
+  if (args.size() != 4) { return "bad-op"; }
+  CpuList *cpu = isa_find_cpu(args[0]);
+  if (cpu == NULL || cpu->disasm_range == NULL) { return "bad-op"; }
+  uint32_t start = (uint32_t)strtoul(args[1].c_str(), NULL, 16);
+  uint32_t end = (uint32_t)strtoul(args[2].c_str(), NULL, 16);
+  std::string bytes = unhex(args[3]);
+  Memory *memory = new Memory();
+  isa_load(memory, cpu, start, bytes);
+  capture_take();
+  signal(SIGALRM, isa_alarm);
+  alarm(10);
+  cpu->disasm_range(memory, cpu->flags, start, end);
+  alarm(0);
+  std::string printed = capture_take();
+  delete memory;
+  std::string out;
+  size_t pos = 0;
+  while (pos < printed.size())
+  {
+    size_t eol = printed.find('\n', pos);
+    if (eol == std::string::npos) { eol = printed.size(); }
+    std::string line = printed.substr(pos, eol - pos);
+    pos = eol + 1;
+    size_t colon = line.find(':');
+    if (colon == std::string::npos || colon == 0 || colon > 24) { continue; }
+    if (!out.empty()) { out += ","; }
+    out += tohex(line.substr(0, colon));
+  }
+  return out.empty() ? "-" : out;
+}
+
+
 // cpus -> name:bytes_per_address:endian,... for every cpu_list entry
 static std::string cmd_cpus(const std::vector<std::string> &args)
 {
@@ -285,6 +327,7 @@ static void register_isa_all()
   handlers["disx"] = cmd_disx;
   handlers["cpus"] = cmd_cpus;
   handlers["disxb"] = cmd_disxb;
+  handlers["walkx"] = cmd_walkx;
 }
 
 #endif
